@@ -63,11 +63,12 @@ package kubeeventsmanager
 // a stopped informer or a failing filter changes nothing.
 //@ func (*resourceInformer).handleWatchEvent
 //@   prop C08, C01
+//@   opt old=cs
 //@   requires ei.Monitor != nil && ei.cachedObjects != nil && ei.cachedObjectsInfo != nil && ei.cachedObjectsIncrement != nil
 //@   requires [assumed:informer-delivers-unstructured-objects] IsObj(object) || (dyntype(object, cache.DeletedFinalStateUnknown) && IsObj(object.(cache.DeletedFinalStateUnknown).Obj))
 //@   requires forall(k, string, has(ei.cachedObjects, k) ==> ei.cachedObjects[k] != nil)
 //@   requires [event-kind] eventType == kemtypes.WatchEventAdded || eventType == kemtypes.WatchEventModified || eventType == kemtypes.WatchEventDeleted
-//@   modifies mapof(ei.cachedObjects), fields(ei.cachedObjectsInfo), fields(ei.cachedObjectsIncrement), ei.eventBuf, elems(ei.eventBuf), ei.eventCbEnabled, nPut, lastPut, putLog, lastFilterRes, lastFilterErr
+//@   modifies mapof(ei.cachedObjects), fields(ei.cachedObjectsInfo), fields(ei.cachedObjectsIncrement), ei.eventBuf, allelems(kemtypes.KubeEvent), ei.eventCbEnabled, nPut, lastPut, putLog, lastFilterRes, lastFilterErr
 //@   let o := ite(dyntype(object, cache.DeletedFinalStateUnknown), object.(cache.DeletedFinalStateUnknown).Obj, object).(*unstructured.Unstructured)
 //@   let rid := resourceId(ite(dyntype(object, cache.DeletedFinalStateUnknown), object.(cache.DeletedFinalStateUnknown).Obj, object).(*unstructured.Unstructured))
 //@   let wasCached := old(has(ei.cachedObjects, rid))
@@ -88,7 +89,10 @@ package kubeeventsmanager
 //@   ensures [cache-follows @C08]   nFired == 1 && eventType != kemtypes.WatchEventDeleted ==> has(ei.cachedObjects, rid) && ei.cachedObjects[rid].Metadata.ResourceId == rid
 //@   ensures [delivered-or-buffered @C08] nPut > old(nPut) ==> old(ei.eventCbEnabled) && lastPut.Type == kemtypes.TypeEvent && len(lastPut.WatchEvents) == 1 && lastPut.WatchEvents[0] == eventType
 //@        && len(lastPut.Objects) == 1 && lastPut.MonitorId == ei.Monitor.Metadata.MonitorId
-//@   ensures [one-direct-delivery @C01] nPut == old(nPut) || nPut == old(nPut) + 1
+//@   ensures [handed-over-at-most-once @C01] (nPut - old(nPut)) + (len(ei.eventBuf) - old(len(ei.eventBuf))) == 0 || (nPut - old(nPut)) + (len(ei.eventBuf) - old(len(ei.eventBuf))) == 1
+//@   ensures [direct-only-when-enabled @C01] nPut > old(nPut) ==> old(ei.eventCbEnabled) && len(ei.eventBuf) == old(len(ei.eventBuf))
+//@   ensures [buffered-only-when-disabled @C01] len(ei.eventBuf) > old(len(ei.eventBuf)) ==> !old(ei.eventCbEnabled) && nPut == old(nPut)
+//@   ensures [buffer-only-grows @C01] len(ei.eventBuf) >= old(len(ei.eventBuf)) && forall(j, 0, old(len(ei.eventBuf)), ei.eventBuf[j] == old(ei.eventBuf)[j])
 
 // the informer callbacks forward with the matching event kind
 //@ func (*resourceInformer).OnAdd
@@ -96,21 +100,21 @@ package kubeeventsmanager
 //@   requires ei.Monitor != nil && ei.cachedObjects != nil && ei.cachedObjectsInfo != nil && ei.cachedObjectsIncrement != nil
 //@   requires [assumed:informer-delivers-unstructured-objects] IsObj(obj) || (dyntype(obj, cache.DeletedFinalStateUnknown) && IsObj(obj.(cache.DeletedFinalStateUnknown).Obj))
 //@   requires forall(k, string, has(ei.cachedObjects, k) ==> ei.cachedObjects[k] != nil)
-//@   modifies mapof(ei.cachedObjects), fields(ei.cachedObjectsInfo), fields(ei.cachedObjectsIncrement), ei.eventBuf, elems(ei.eventBuf), ei.eventCbEnabled, nPut, lastPut, putLog, lastFilterRes, lastFilterErr
+//@   modifies mapof(ei.cachedObjects), fields(ei.cachedObjectsInfo), fields(ei.cachedObjectsIncrement), ei.eventBuf, allelems(kemtypes.KubeEvent), ei.eventCbEnabled, nPut, lastPut, putLog, lastFilterRes, lastFilterErr
 //@   ensures [kind @C08] nPut > old(nPut) ==> lastPut.WatchEvents[0] == kemtypes.WatchEventAdded
 //@ func (*resourceInformer).OnUpdate
 //@   prop C08
 //@   requires ei.Monitor != nil && ei.cachedObjects != nil && ei.cachedObjectsInfo != nil && ei.cachedObjectsIncrement != nil
 //@   requires [assumed:informer-delivers-unstructured-objects] IsObj(newObj) || (dyntype(newObj, cache.DeletedFinalStateUnknown) && IsObj(newObj.(cache.DeletedFinalStateUnknown).Obj))
 //@   requires forall(k, string, has(ei.cachedObjects, k) ==> ei.cachedObjects[k] != nil)
-//@   modifies mapof(ei.cachedObjects), fields(ei.cachedObjectsInfo), fields(ei.cachedObjectsIncrement), ei.eventBuf, elems(ei.eventBuf), ei.eventCbEnabled, nPut, lastPut, putLog, lastFilterRes, lastFilterErr
+//@   modifies mapof(ei.cachedObjects), fields(ei.cachedObjectsInfo), fields(ei.cachedObjectsIncrement), ei.eventBuf, allelems(kemtypes.KubeEvent), ei.eventCbEnabled, nPut, lastPut, putLog, lastFilterRes, lastFilterErr
 //@   ensures [kind @C08] nPut > old(nPut) ==> lastPut.WatchEvents[0] == kemtypes.WatchEventModified
 //@ func (*resourceInformer).OnDelete
 //@   prop C08
 //@   requires ei.Monitor != nil && ei.cachedObjects != nil && ei.cachedObjectsInfo != nil && ei.cachedObjectsIncrement != nil
 //@   requires [assumed:informer-delivers-unstructured-objects] IsObj(obj) || (dyntype(obj, cache.DeletedFinalStateUnknown) && IsObj(obj.(cache.DeletedFinalStateUnknown).Obj))
 //@   requires forall(k, string, has(ei.cachedObjects, k) ==> ei.cachedObjects[k] != nil)
-//@   modifies mapof(ei.cachedObjects), fields(ei.cachedObjectsInfo), fields(ei.cachedObjectsIncrement), ei.eventBuf, elems(ei.eventBuf), ei.eventCbEnabled, nPut, lastPut, putLog, lastFilterRes, lastFilterErr
+//@   modifies mapof(ei.cachedObjects), fields(ei.cachedObjectsInfo), fields(ei.cachedObjectsIncrement), ei.eventBuf, allelems(kemtypes.KubeEvent), ei.eventCbEnabled, nPut, lastPut, putLog, lastFilterRes, lastFilterErr
 //@   ensures [kind @C08] nPut > old(nPut) ==> lastPut.WatchEvents[0] == kemtypes.WatchEventDeleted
 
 // C08: executeHookOnEvent absent = all three watch events; otherwise exactly the given ones.
